@@ -276,7 +276,9 @@ class ProvRecord(object):
 
         :param type_identifier: PROV namespace identifier to add.
         """
-        self._attributes[PROV_TYPE].add(type_identifier)
+        # the same way any other prov:type value arrives: the namespace of a
+        # qualified name gets declared, literals are normalised
+        self.add_attributes([(PROV_TYPE, type_identifier)])
 
     def get_attribute(self, attr_name) -> set:
         """
